@@ -9,7 +9,7 @@ from . import _c19x as X
 ID = 'C19'
 TITLE = 'container lifting maps leaf-wise, preserves shape, and is schedule independent'
 LEAN_FILES = ['Basic', 'Lift', 'Zip', 'Waiter', 'LiftDriver', 'WaiterDriver', 'LiftLemmas', 'ZipLemmas', 'WaiterLemmas', 'ResDec', 'C19',
-              'LiftX', 'LiftXDriver', 'Txt', 'LiftXLemmas', 'TxtLemmas', 'WaiterF', 'WaiterFDriver', 'WaiterFLemmas']
+              'LiftX', 'LiftXDriver', 'Txt', 'LiftXLemmas', 'TxtLemmas', 'WaiterF', 'WaiterFDriver', 'WaiterFLemmas', 'WaiterLog', 'WaiterLogLemmas', 'LiftXRecLemmas']
 RULE = ('distinct protocol lines on which the implementation returned a value and whose looped argument is a non-empty container '
         '(lift), whose arguments hold at least one sequence (zipper/lens/as_list/as_tuple), or whose structure holds at least one '
         'awaitable (waiter; every completion order is a distinct line)')
@@ -401,6 +401,12 @@ def generate(rng, tier):
     for j in range(500 if q else 5000):
         c = gen_call(rng, dicts=True)
         yield dict(tag=c['tag'].replace('lift ', 'liftq ', 1), lines=[l.replace('(lift call ', '(lift callq ', 1) for l in c['lines']])
+    # round k6: a range key (a sub-dict for dictattr) and the empty string as a key (`callr`, KEYMAP_R)
+    yield dict(tag='liftr dictattr with a range key and the empty key', lines=['(lift callr %s %s (D))' % (proto.hexs(TOP), enc([{'a': 'P', 'b': 'Q', 'c': 'X', 'd': 'Y'}]))])
+    yield dict(tag='liftr companion with a range key and the empty key', lines=['(lift callr %s %s (D))' % (proto.hexs(TOP), enc([{'c': 1, 'a': 2, 'd': 3, 'k': 4}, {'c': 10, 'a': 20, 'd': 30, 'k': 40}]))])
+    for j in range(200 if q else 3000):
+        c = gen_call(rng, dicts=True)
+        yield dict(tag=c['tag'].replace('lift ', 'liftr ', 1), lines=[l.replace('(lift call ', '(lift callr ', 1) for l in c['lines']])
     for _ in range(1200 if q else 12000):
         yield gen_lib(rng)
     for _ in range(1200 if q else 12000):
@@ -545,17 +551,18 @@ def run_line(state, sx):
         same_types(a[0] if a else kw[TOP], res)
         back = {v: k for k, v in m1.items()}            # 1.0 == 1 and hash(1.0) == hash(1): both spellings map back
         return 'ok ' + enc(unexo(res, back))
-    if op == 'callq':
+    if op in ('callq', 'callr'):
+        km, back = (KEYMAP_Q, _KEYBACK_Q) if op == 'callq' else (KEYMAP_R, _KEYBACK_R)
         # the dict classes the `loop` factory adds (_dict.py:163-173: Dict, dictattr, OrderedDict) as looped argument and as
         # companions, with keys on which these classes overload `__getitem__` (a tuple key = multi-get, a callable key = apply):
         # a lifted function must read its dicts as the mappings they are (review t5: `lower(dictattr({'a':'P','b':'Q',('a','b'):'X'}))`
         # lost the leaf 'X')
         a0, kw0 = proto.dec(args[1]), proto.dec(args[2])
-        a = [exq(x, 0, 0 if j == 0 else 1) for j, x in enumerate(a0)]
-        kw = {n: exq(c, 0, 0 if (n == TOP and not a0) else 1) for n, c in kw0.items()}
+        a = [exq(x, 0, 0 if j == 0 else 1, km) for j, x in enumerate(a0)]
+        kw = {n: exq(c, 0, 0 if (n == TOP and not a0) else 1, km) for n, c in kw0.items()}
         res = lifted(rec)(*a, **kw)
         same_types_q(a[0] if a else kw[TOP], res)
-        return 'ok ' + enc(unexq(res))
+        return 'ok ' + enc(unexq(res, back))
     if op == 'call':
         a, kw = proto.dec(args[1]), proto.dec(args[2])
         before = enc([a, kw])
@@ -684,7 +691,7 @@ def ref_lift(fn, v, pos, kw):
     return fn(v, *pos, **kw)
 
 
-CALL_OPS = ('call', 'callx', 'cally', 'callz', 'callq')
+CALL_OPS = ('call', 'callx', 'cally', 'callz', 'callq', 'callr')
 
 
 def clear_expected(line, pop_axis=False):
@@ -820,6 +827,10 @@ KEYMAP_Z = {'a': (1, 'x'), 'b': ('x', 1), 'c': (None, 2), 'd': 'd', 'k': (2.5,)}
 
 KEYMAP_Q = {'a': 'a', 'b': 'b', 'c': ('a', 'b'), 'd': int, 'k': ('a',)}      # `callq`: keys on which dictattr / Dict overload __getitem__
 _KEYBACK_Q = {v: k for k, v in KEYMAP_Q.items()}
+# `callr` (round k6): a RANGE key (dictattr reads `d[range(2)]` as a sub-dict), the EMPTY string as a key (the wire format cannot
+# spell it: `(D ( v))` does not parse) and a 1-tuple of another key
+KEYMAP_R = {'a': 'a', 'b': 'b', 'c': range(2), 'd': '', 'k': ('b',)}
+_KEYBACK_R = {v: k for k, v in KEYMAP_R.items()}
 
 
 def _classes_q():
@@ -827,25 +838,27 @@ def _classes_q():
     return [dictattr, Dict, dict, collections.OrderedDict]
 
 
-def exq(v, depth, salt):
+def exq(v, depth, salt, km=None):
     """deterministic: every dict becomes one of dictattr / Dict / dict / OrderedDict (by size, depth and role), keys through KEYMAP_Q"""
+    km = KEYMAP_Q if km is None else km
     if isinstance(v, dict):
         cls = _classes_q()[(len(v) + depth + salt) % 4]
-        return cls({KEYMAP_Q.get(k, k): exq(x, depth + 1, salt) for k, x in v.items()})
+        return cls({km.get(k, k): exq(x, depth + 1, salt, km) for k, x in v.items()})
     if isinstance(v, list):
-        return [exq(x, depth + 1, salt) for x in v]
+        return [exq(x, depth + 1, salt, km) for x in v]
     if isinstance(v, tuple):
-        return tuple(exq(x, depth + 1, salt) for x in v)
+        return tuple(exq(x, depth + 1, salt, km) for x in v)
     return v
 
 
-def unexq(v):
+def unexq(v, back=None):
+    back = _KEYBACK_Q if back is None else back
     if isinstance(v, dict):
-        return {_KEYBACK_Q.get(k, k): unexq(x) for k, x in dict.items(v)}
+        return {back.get(k, k): unexq(x, back) for k, x in dict.items(v)}
     if isinstance(v, list):
-        return [unexq(x) for x in v]
+        return [unexq(x, back) for x in v]
     if isinstance(v, tuple):
-        return tuple(unexq(x) for x in v)
+        return tuple(unexq(x, back) for x in v)
     return v
 
 
